@@ -60,6 +60,7 @@ func TestCheck(t *testing.T) {
 		"old-layout chains carry one legacy history entry per storage / nonce diff (the layout pruner/testutils writes), which the history-prune migration stages and restores",
 	)
 	checkProductionRegistry(r)
+	httpPath(r)
 
 	// ---------- part (a)
 
